@@ -162,6 +162,12 @@ def build_cases(tier, seed):
         prof["network"] = ["euclidean", "euclidean", "grid"][i % 3]
         ctrl = BUILTIN if i % 3 != 2 else hostile_stack(p=0.15, builtin=True)
         cases.append(trace_case("C19", i, s, prof, ctrl, steps, ["C19"], opts=({"cosim_ops": {"every": 9, "kinds": ["scale_rate", "append_plugs"]}, "cosim_noops": 7} if i % 4 == 1 else {"inject_requests": {"every": 6, "public": False}} if i % 4 == 3 else {})))
+    # an operator who logs only some kinds of records (log_sim_config): every clause about a kind that is logged still applies, and
+    # station loads are compared with what the vehicles really took on
+    SEL = [["station_load_event"], ["station_load_event", "vehicle_move_event", "add_request_event", "cancel_request_event", "pickup_request_event"], ["vehicle_charge_event", "pickup_request_event", "dropoff_request_event"], ["station_load_event", "dropoff_request_event", "driver_schedule_event", "instruction"]]
+    for k, c in enumerate(cases):
+        if c.get("engine") == "trace" and k % 6 == 4:
+            c["global_overrides"] = {"log_sim_config": SEL[(k // 6) % len(SEL)]}
     if tier == "thorough":
         for w in ("denver_downtown/denver_demo.yaml", "denver_downtown/denver_demo_fleets.yaml", "denver_downtown/denver_demo_constrained_charging.yaml"):
             cases.append(shipped_case("C19", w, 800, ["C19"], tag="b"))
